@@ -7,7 +7,8 @@ Property theorems only (model: `Model/Registry.lean` + `Model/Activation.lean`; 
 `Proofs/Activation.lean`).  All statements hold for **every** world `w` (any registries, any program-held
 references, any sets), **every** callback script family `script : Aid → List Action` (on its turn an agent
 may remove itself, remove any other agent — earlier, later, held or not —, create agents in any model, make
-the program drop references, in any combination and number) and every argument.
+the program drop references, add agents to / discard agents from program-made sets including the activated one, in
+any combination and number), every family `raises : Aid → Bool` of callbacks that end by raising, and every argument.
 
 * `walk script arg w refs` is the loop `for ref in refs: if (agent := ref()) is not None: method(agent, arg)`;
   `doSet` is `walk` over the snapshot `members w t` (`list(keyrefs())`), `shuffleDo` over the shuffled snapshot.
@@ -156,6 +157,67 @@ theorem C04_exactly_once_all_histories (ops : List Op) (script : Aid → List Ac
   ⟨(C04_never_twice_only_members_in_order script arg _ t (C02_sets_nodup_all_histories ops t)).2.1,
    fun a ha hend => C04_survivor_invoked_exactly_once script arg _ t (C02_sets_nodup_all_histories ops t) a ha hend⟩
 
+/-! ### callbacks that raise, callbacks that edit the activated set -/
+
+/-- **A callback that raises ends the call at the raiser.**  Whatever the callbacks do and whichever of them raise,
+    the activation is an ordinary walk over a prefix `pre` of the reference list (so every theorem above applies to
+    it): if an exception leaves the call, `pre` ends with the raiser `a`, which was alive at its turn and is the
+    last agent invoked; everybody invoked before it did not raise; nobody behind it is invoked (the log holds exactly
+    the invocations of `pre`).  If no exception leaves the call, the whole list was walked and nobody invoked raises. -/
+theorem C04_exception_ends_the_call_at_the_raiser (script : Aid → List Action) (raises : Aid → Bool) (arg : Nat)
+    (w : World) (refs : List Aid) :
+    ∃ pre post, refs = pre ++ post ∧
+      (walkX script raises arg w refs).1 = walk script arg w pre ∧
+      (walkX script raises arg w refs).1.log = w.log ++ (visited script arg w pre).map (fun a => (a, arg)) ∧
+      ((walkX script raises arg w refs).2 = true →
+        ∃ pre' a, pre = pre' ++ [a] ∧ alive (walk script arg w pre') a = true ∧ raises a = true ∧
+          visited script arg w pre = visited script arg w pre' ++ [a] ∧
+          ∀ b ∈ visited script arg w pre', raises b = false) ∧
+      ((walkX script raises arg w refs).2 = false → post = [] ∧ ∀ b ∈ visited script arg w refs, raises b = false) := by
+  obtain ⟨pre, post, h1, h2, h3, h4⟩ := walkX_spec script raises arg w refs
+  refine ⟨pre, post, h1, h2, by rw [h2]; exact walk_log script arg w pre, ?_, h4⟩
+  intro hx
+  obtain ⟨pre', a, e1, e2, e3, e4⟩ := h3 hx
+  refine ⟨pre', a, e1, e2, e3, ?_, e4⟩
+  rw [e1, visited_append, visited_alive _ e2]
+  rfl
+
+/-- `map`, `GroupBy.do` and `GroupBy.map` under exceptions: `map` changes the state exactly as `do` does and returns
+    no list iff an exception leaves the call, otherwise the results of the invoked agents in order; `GroupBy.do` —
+    whose loop over the groups is left by the first exception — is the raising walk over the members regrouped by
+    key; `GroupBy.map` changes the state as `GroupBy.do` and returns no dict iff an exception leaves the call; and
+    callbacks that never raise give the plain activation. -/
+theorem C04_map_and_groupby_under_exceptions (script : Aid → List Action) (raises : Aid → Bool) (arg : Nat)
+    (ret : Aid → Nat → Nat) (key : Aid → Nat) (w : World) (t : Target) :
+    ((mapSetX script raises arg ret w t).1 = (doSetX script raises arg w t).1 ∧
+     ((mapSetX script raises arg ret w t).2 = none ↔ (doSetX script raises arg w t).2 = true) ∧
+     ∀ rs, (mapSetX script raises arg ret w t).2 = some rs →
+       rs = (visited script arg w (members w t)).map (fun a => ret a arg)) ∧
+    groupDoX script raises arg key w t
+      = walkX script raises arg w ((groupBy key (members w t)).map (·.2)).flatten ∧
+    ((groupMapX script raises arg ret key w t).1 = (groupDoX script raises arg key w t).1 ∧
+     ((groupMapX script raises arg ret key w t).2 = none ↔ (groupDoX script raises arg key w t).2 = true)) ∧
+    (∀ refs, walkX script (fun _ => false) arg w refs = (walk script arg w refs, false)) :=
+  ⟨walkMapX_spec script raises arg ret w (members w t), groupDoX_eq script raises arg key w t,
+   groupsMapX_spec script raises arg ret w _, fun refs => walkX_never script arg w refs⟩
+
+/-- **Callbacks may edit the activated set.**  `add` / `discard` calls a callback makes on program-made sets — the
+    very set being activated included — are invisible to the walk: the same agents are invoked, in the same order,
+    as by the same callbacks without those calls, and the two final worlds differ in nothing but the program-made
+    sets (registries, references, log identical).  In particular, when the callbacks do nothing else, every member
+    present at call start is invoked exactly once in set order — also one that an earlier callback discarded from
+    the set — and nobody that was added. -/
+theorem C04_set_edits_invisible_to_the_walk (script : Aid → List Action) (arg : Nat) (w : World) (refs : List Aid) :
+    visited script arg w refs = visited (stripEdits script) arg w refs ∧
+    (∃ s', walk script arg w refs = withSets (walk (stripEdits script) arg w refs) s') ∧
+    ((∀ a, stripEdits script a = []) → ∀ t, visited script arg w (members w t) = members w t) := by
+  have h := walk_withSets script arg refs w w.sets
+  rw [withSets_self] at h
+  refine ⟨h.2, h.1, fun hs t => visited_of_no_churn script arg w _ hs ?_⟩
+  intro a ha
+  simp only [members, List.mem_filter] at ha
+  exact ha.2
+
 /-! ### non-vacuity: churn in one concrete activation -/
 
 private def demoWorld : World :=
@@ -175,5 +237,29 @@ example : members (doSet demoScript 7 demoWorld (.all 0)) (.all 0) = [4, 5] ∧
     (doSet demoScript 7 demoWorld (.all 0)).log = [(0, 7), (1, 7), (3, 7), (4, 7)] := by decide
 example : visited demoScript 7 (setRng demoWorld 0 (Rng.shuffle (members demoWorld (.all 0)) (rngOf demoWorld (.all 0))).2)
     (Rng.shuffle (members demoWorld (.all 0)) (rngOf demoWorld (.all 0))).1 = [0, 4, 1, 3] := by decide
+
+/-- agent 1 (held) removes agent 2 and then raises: the call ends there — 0 and 1 were invoked, 3 and 4 never -/
+private def demoRaises : Aid → Bool := fun a => a == 1
+
+example : walkX (fun a => if a = 1 then [.rm 2] else []) demoRaises 7 demoWorld (members demoWorld (.all 0))
+    = (walk (fun a => if a = 1 then [.rm 2] else []) 7 demoWorld [0, 1], true) := by decide
+example : (doSetX (fun a => if a = 1 then [.rm 2] else []) demoRaises 7 demoWorld (.all 0)).1.log = [(0, 7), (1, 7)] ∧
+    members (doSetX (fun a => if a = 1 then [.rm 2] else []) demoRaises 7 demoWorld (.all 0)).1 (.all 0) = [0, 1, 3, 4] := by
+  decide
+example : (mapSetX demoScript demoRaises 7 (fun a x => a * 100 + x) demoWorld (.all 0)).2 = none ∧
+    (mapSetX demoScript (fun _ => false) 7 (fun a x => a * 100 + x) demoWorld (.all 0)).2 = some [7, 107, 307, 407] := by
+  decide
+
+/-- the activated set is program-made set 0 = [0, 1, 2, 3]; agent 0 discards agent 2 from it and adds agent 4, agent 1
+    discards itself: everybody present at call start is still invoked, agent 4 is not; the set ends as [0, 3, 4] -/
+private def demoSetWorld : World := mkSet demoWorld 0 [0, 1, 2, 3]
+private def demoEdits : Aid → List Action
+  | 0 => [.discardFrom 0 2, .addTo 0 4]
+  | 1 => [.discardFrom 0 1]
+  | _ => []
+
+example : visited demoEdits 7 demoSetWorld (members demoSetWorld (.set 0)) = [0, 1, 2, 3] ∧
+    members (doSet demoEdits 7 demoSetWorld (.set 0)) (.set 0) = [0, 3, 4] ∧
+    (∀ a, a < 6 → stripEdits demoEdits a = []) := by decide
 
 end Mesa.Agents
